@@ -8,7 +8,7 @@ from concurrent.futures import ThreadPoolExecutor
 
 VERIF = os.path.dirname(os.path.abspath(__file__))
 REPO = os.environ.get("VERIF_REPO", "/repo")
-BIN = os.path.join(VERIF, "bin", "goatverif")
+BIN = os.environ.get("GOATVERIF_BIN") or os.path.join(VERIF, "bin", "goatverif")
 only = None
 match = None
 args = sys.argv[1:]
